@@ -50,6 +50,8 @@ def input_cause(case):
     for d in decl:
         for sp in d["usage"]:
             occ.append((d["i"], spelled(d, sp)))
+    if case["extra"]:
+        occ.append((-1, R(case["extra"]) if not R(case["extra"]).startswith("stage1.") else R(case["extra"]).split(".", 1)[1]))
     causes = []
     for d in decl:
         if d["kind"] == "copy":
@@ -59,10 +61,8 @@ def input_cause(case):
                 causes.append("reference-contained-in-another-reference")
     if any(set(d["usage"]) == {"rel", "abs"} for d in decl):
         causes.append("both-spellings-of-a-reference-in-one-line")
-    for c in ("reference-contained-in-another-reference", "both-spellings-of-a-reference-in-one-line"):
-        if c in causes:
-            return c
-    return None
+    present = [c for c in ("reference-contained-in-another-reference", "both-spellings-of-a-reference-in-one-line") if c in causes]
+    return "+".join(present) if present else None
 
 
 class Runner:
@@ -205,7 +205,7 @@ class Runner:
                 key = "subst:" + (cause or "verdict-on-valid-component") if got != want else "verdict:valid-component-rejected:" + (cause or "plain")
                 what = "checkDataReferences rejects (%s) the valid component declaring %s with arguments %r" % (verdict, declared, R(case["args"]))
             else:
-                key = "verdict:%s-reference-not-reported" % case["fault"]
+                key = ("subst:" + cause) if cause else "verdict:%s-reference-not-reported" % case["fault"]
                 what = "checkDataReferences says %r for a component declaring %s with arguments %r (%s reference: expected %r)" % (
                     verdict, declared, R(case["args"]), case["fault"], case["verdict"])
             self.fail(key, what, rp)
